@@ -367,6 +367,8 @@ pub enum Action {
     Signal { sig: i32 },
     WallStepMs(i64),
     WallSet { secs: u64, nanos: u32 },
+    WallFreeze { secs: u64, nanos: u32 },
+    WallUnfreeze,
     Crash,
     Restart,
     RunClient { argv: Vec<String> },
